@@ -93,12 +93,15 @@ func buildCatalogue() (grammar *catalogue, extra *catalogue, ar *arities) {
 	// freshIntSeqs) under every combinator
 	mSlice := mergeSliceI()
 	expand1(grammar, mSlice)
+	// MergeGoMap: the one instance whose Empty is a fresh MUTABLE value per call, under every
+	// combinator (an enclosing instance that memoises its Empty hands the same map out again)
+	mGoMapI := mergeGoMapI()
+	expand1(grammar, mGoMapI)
 
 	add := func(n *node) { extra.add(n) }
 	add(hn.n)
 	add(mSumStr.n)
 	add(finishM(newNode("monoid", "Unit", fixed([]fp.Unit{{}}), unitEq, func(any) string { return "Unit" }), mval(monoid.Unit)).n)
-	add(mergeGoMapI().n)
 	add(mergeMapI().n)
 	add(mergeSetI().n)
 	add(finishM(sumNode("monoid", "float64", fltDom), monoid.Sum[float64]).n)
@@ -189,7 +192,7 @@ func historyScenario(r *mc.Registry, nodes []*node) (mutableNodes int) {
 		writes, calls := 0, 0
 		for d := range seq {
 			seq[d] = x.Choose(len(alphabet), "step")
-			if alphabet[seq[d]].kind == "mut" {
+			if k := alphabet[seq[d]].kind; k == "mut" || k == "mutr" {
 				writes++
 			} else {
 				calls++
@@ -303,6 +306,15 @@ func foldCases[T any](kind string, fm foldMonoid[T], impls []foldImpl[T]) []fold
 				failFold(x, fm.node, im.name+"/panic", "%s(%s, %s)%s panicked: %v", im.name, in, fm.name, im.note, p)
 			}
 			gotS, gotOK := fm.show(got), fm.eqv(got, want)
+			// the caller owns the result: for results with a mutable referent that is not shared
+			// with an operand (maps built by MergeGoMap) it writes into it before folding again
+			wrote := false
+			if w := foldWrite[fm.name]; w != nil && w(got) {
+				wrote = true
+				x.Logf("the caller writes into the result: %s becomes %s", gotS, fm.show(got))
+				gotS = fm.show(got)
+				x.Tag("fold: the caller wrote into the returned value before the second fold")
+			}
 			// the same fold once more on the same operands; then everything is looked at again
 			if p := mc.Catch(func() { got2 = im.f(m, idx, elems) }); p != nil {
 				failFold(x, fm.node, im.name+"/panic", "%s(%s, %s)%s panicked when called again: %v", im.name, in, fm.name, im.note, p)
@@ -320,7 +332,11 @@ func foldCases[T any](kind string, fm foldMonoid[T], impls []foldImpl[T]) []fold
 				}
 			}
 			if !fm.eqv(got2, want) {
-				failFold(x, fm.node, im.name+"/not-the-left-fold", "%s(%s, %s)%s = %s when called a second time on the same operands, the left-to-right fold of Combine from Empty is %s", im.name, in, fm.name, im.note, fm.show(got2), wantS)
+				after := ""
+				if wrote {
+					after = " (after the caller wrote into the first result)"
+				}
+				failFold(x, fm.node, im.name+"/not-the-left-fold", "%s(%s, %s)%s = %s when called a second time on the same operands%s, the left-to-right fold of Combine from Empty is %s", im.name, in, fm.name, im.note, fm.show(got2), after, wantS)
 			}
 			x.Observe(fm.name, wantS)
 			if len(idx) >= 2 {
@@ -368,6 +384,10 @@ func foldMapCases[T any](fm foldMonoid[T]) []foldCase {
 		}},
 	})
 }
+
+// foldWrite: how the caller writes into a fold result (by monoid name); only for results whose
+// mutable referent is never shared with an operand
+var foldWrite = map[string]func(any) bool{}
 
 func constant[T any](vs ...T) func() []T { return func() []T { return vs } }
 
@@ -478,8 +498,22 @@ func foldScenario(r *mc.Registry, maxLen int, byName map[string]*node) int {
 			return showKV(m)
 		}, byName["monoid.MergeGoMap[string,int]"]}
 
+	foldWrite[mGoMap.name] = func(v any) bool { v.(kv)["written"] = 9; return true }
+	// an enclosing instance over MergeGoMap: its Empty (= the fold of the empty input) must be a
+	// fresh value every time
+	type hkv = hlist.Cons[kv, hlist.Nil]
+	hk := func(m kv) hkv { return hlist.Concat(m, hlist.Empty()) }
+	mHGoMap := foldMonoid[hkv]{"monoid.HCons(monoid.MergeGoMap[string,int],monoid.HNil)",
+		func() fp.Monoid[hkv] { return monoid.HCons(monoid.MergeGoMap[string, int](), monoid.HNil) },
+		func() []hkv { return []hkv{hk(nil), hk(kv{"a": 1}), hk(kv{"a": 2}), hk(kv{"b": 1})} },
+		func(h hkv) hkv { return hk(mGoMap.tight(h.Head())) },
+		func(a, b hkv) bool { return kvEq(a.Head(), b.Head()) },
+		func(h hkv) string { return mGoMap.show(h.Head()) + "::HNil" }, byName["monoid.HCons(monoid.MergeGoMap[string,int],monoid.HNil)"]}
+	foldWrite[mHGoMap.name] = func(v any) bool { v.(hkv).Head()["written"] = 9; return true }
+
 	var cases []foldCase
 	for _, cs := range [][]foldCase{
+		reduceCases(mHGoMap), foldMapCases(mHGoMap),
 		reduceCases(mPtr), foldMapCases(mPtr), reduceCases(mGoMap), foldMapCases(mGoMap),
 		reduceCases(mString), reduceCases(mSum), reduceCases(mProd), reduceCases(mOpt),
 		reduceCases(mSeq), reduceCases(mSlice), reduceCases(mDualSlice), reduceCases(mDualSeq),
@@ -531,7 +565,7 @@ func main() {
 		for _, n := range grammarNodes {
 			byName[n.name] = n
 		}
-		for _, want := range []string{"monoid.String", "monoid.Sum[int]", "monoid.Product[int]", "monoid.Option(monoid.String)", "monoid.MergeSeq[int]", "monoid.MergeSlice[int]", "monoid.Dual(monoid.MergeSlice[int])", "monoid.Dual(monoid.MergeSeq[int])", "monoid.Ptr(monoid.String)", "monoid.MergeGoMap[string,int]"} {
+		for _, want := range []string{"monoid.String", "monoid.Sum[int]", "monoid.Product[int]", "monoid.Option(monoid.String)", "monoid.MergeSeq[int]", "monoid.MergeSlice[int]", "monoid.Dual(monoid.MergeSlice[int])", "monoid.Dual(monoid.MergeSeq[int])", "monoid.Ptr(monoid.String)", "monoid.MergeGoMap[string,int]", "monoid.HCons(monoid.MergeGoMap[string,int],monoid.HNil)"} {
 			if byName[want] == nil {
 				panic("fold scenario: no catalogue entry named " + want)
 			}
